@@ -792,3 +792,14 @@ Definition tail_all (cfg : tail_cfg) (target live : json) (ann : option json)
       | Done la => map (dispatch cfg target live rr) (verdicts (vmatch target live la false))
       end
   end.
+
+(* the target does not itself specify metadata.ownerReferences *)
+Definition owners_free (t : json) : bool :=
+  match t with
+  | JMap tk =>
+      match lookup "metadata" tk with
+      | Some (JMap md) => match lookup K_OWNERS md with None => true | Some _ => false end
+      | _ => true
+      end
+  | _ => true
+  end.
